@@ -2,7 +2,8 @@ import UF.Model.DnsEngine
 /-
   Reference for C02: scan every rule of the lists.
 -/
-namespace UF
+namespace UF.B
+open UF UF.Bytes
 
 /-- A network rule is DNS-applicable: no `$domain`, not both permitted and restricted content types,
     no disabled option, and the enabled options are a subset of {important, badfilter}. -/
@@ -28,18 +29,19 @@ def specDns (ext : Ext) (basic : List NetRule → Option NetRule) (L : List Rule
       let hs := (hostRulesOf L).filter fun hr => hr.hostnames.contains q.hostname
       { networkRules := nrs, v4 := hs.filter (·.ip.is4), v6 := hs.filter (!·.ip.is4), matched := !hs.isEmpty }
 
-end UF
+end UF.B
 
-namespace UF
+namespace UF.B
+open UF UF.Bytes
 
 /-- The class of the winning rule the property compares: exception? important? -/
-def NetRule.cls (r : NetRule) : Bool × Bool := (r.whitelist, r.important)
+def netCls (r : NetRule) : Bool × Bool := (r.whitelist, r.important)
 
 /-- Componentwise agreement of two DNS results as the property states it: network rules as a set
     of texts, `NetworkRule == nil` and its exception/important class, host rules as sets, `matched`. -/
 def DnsResult.Equiv (a b : DnsResult) : Prop :=
   (∀ t, t ∈ a.networkRules.map (·.text) ↔ t ∈ b.networkRules.map (·.text)) ∧
-  a.networkRule.map NetRule.cls = b.networkRule.map NetRule.cls ∧
+  a.networkRule.map netCls = b.networkRule.map netCls ∧
   (∀ h, h ∈ a.v4 ↔ h ∈ b.v4) ∧ (∀ h, h ∈ a.v6 ↔ h ∈ b.v6) ∧
   a.matched = b.matched
 
@@ -48,7 +50,7 @@ def DnsResult.Equiv (a b : DnsResult) : Prop :=
 def BasicRespectsTexts (basic : List NetRule → Option NetRule) (S : List NetRule) : Prop :=
   ∀ l l' : List NetRule, (∀ r ∈ l, r ∈ S) → (∀ r ∈ l', r ∈ S) →
     (∀ t, t ∈ l.map (·.text) ↔ t ∈ l'.map (·.text)) →
-    (basic l).map NetRule.cls = (basic l').map NetRule.cls
+    (basic l).map netCls = (basic l').map netCls
 
 /-- The host-level network rules of the storage with their indexes (what `NewDNSEngine` offers to
     its network engine). -/
@@ -57,4 +59,4 @@ def hostLevelNet (L : List (Rule × Idx)) : List (NetRule × Idx) :=
     | .net r => if isHostLevel r then some (r, p.2) else none
     | _ => none
 
-end UF
+end UF.B
